@@ -1,3 +1,5 @@
+//go:build p_c10 || p_all
+
 package main
 
 // C10 — RPC clock diffs round-trip; checksum catches drift.
